@@ -175,6 +175,23 @@ func c08R1(c *Ctx) {
 			}
 		})
 	}
+	// or streamed: io.CopyN(hasher, file, step) with the hasher whose Sum is compared
+	for _, cc := range callsIn(f, idIs("io.CopyN")) {
+		if !domI(cc.(ssa.Instruction), matchCond) || !sameValue(cc.Common().Args[1], file) {
+			continue
+		}
+		// the writer is the hasher used in the compare's Sum call
+		eachInstr(f, func(in ssa.Instruction) {
+			call, ok := in.(*ssa.Call)
+			if ok && call.Call.IsInvoke() && call.Call.Method.Name() == "Sum" && sameValue(call.Call.Value, cc.Common().Args[0]) && domI(cc.(ssa.Instruction), call) {
+				okRead = true
+			}
+		})
+		// the number of bytes hashed is peer step - matched offset
+		if b, ok := strip(cc.Common().Args[2]).(*ssa.BinOp); ok && b.Op == token.SUB {
+			c.check(isFieldLoad("Step")(b.X) && sameValue(b.Y, m), "recvPrefixHash/block=step-matched", c.ipos(cc), "each block hashed is exactly the bytes between the last matched offset and the peer's step", "the block hashed is not (peer step - matched offset)")
+		}
+	}
 	c.check(okRead, "recvPrefixHash/hash-own-bytes", c.ipos(matchCond), "the local hash is fed with bytes read from the same file that is later truncated", "local hash is not fed from the file being resumed")
 }
 
